@@ -106,6 +106,24 @@ pub fn run(ctx: &mut Ctx) {
         let moved = (0..4).all(|i| out[p[i]] == xs[i]);
         ctx.check(&case, "plan-not-stable-sorting-permutation", &["KX.k_plan_is_stable_sorting_permutation", "KX.k_plan_reindex_moves_each_element_to_its_new_index"], p == want && moved, format!("p={:?} out={:?}", p, out), format!("p={:?}", want));
     }
+    // longer vectors with many ties (std's unstable sorts are stable only below their small-input threshold)
+    for len in [20usize, 33, 48, 64, 100] {
+        for seed in 0..6u64 {
+            let case = format!("plan-long:len={} seed={}", len, seed);
+            if !ctx.want(&case) { continue; }
+            let mut x = seed.wrapping_mul(0x9E3779B97F4A7C15).wrapping_add(len as u64);
+            let v: Vec<u8> = (0..len).map(|_| { x ^= x << 13; x ^= x >> 7; x ^= x << 17; (x % 3) as u8 }).collect();
+            let plan = RewritePlan::<Id, _>::from_values_to_sort(&v);
+            let p: Vec<usize> = (0..len).map(|i| usize::from(plan.rewrite(&Id::from(i)))).collect();
+            let mut idx: Vec<usize> = (0..len).collect();
+            idx.sort_by_key(|i| (v[*i], *i));
+            let want: Vec<usize> = (0..len).map(|i| idx.iter().position(|j| *j == i).unwrap()).collect();
+            let xs: Vec<u16> = (0..len as u16).collect();
+            let out: Vec<u16> = plan.reindex(&xs);
+            let moved = (0..len).all(|i| out[p[i]] == xs[i]);
+            ctx.check(&case, "plan-not-stable-sorting-permutation", &["KX.k_plan_is_stable_sorting_permutation", "KX.k_plan_reindex_moves_each_element_to_its_new_index"], p == want && moved, format!("v={:?} p={:?}", v, p), format!("p={:?}", want));
+        }
+    }
     // representative(): one permutation applied consistently to every component
     {
         let case = "representative:3 actors".to_string();
@@ -131,5 +149,27 @@ pub fn run(ctx: &mut Ctx) {
                 && r.network == Network::new_unordered_nonduplicating([Envelope { src: Id::from(p(0)), dst: Id::from(p(2)), msg: Id::from(p(1)) }]);
             ctx.check(&case, "representative-inconsistent-permutation", &["REP.representative.ensures.one-plan-every-component"], ok, format!("{:?}", r), "every component permuted by the same plan".into());
         }
+    }
+    // Network::rewrite on every network kind AFTER a delivery (the duplicating network remembers the last delivery:
+    // that envelope is part of the state and must be permuted like every other endpoint)
+    for kind in ["dup", "nondup", "ordered"] {
+        let case = format!("network-rewrite-after-delivery:{}", kind);
+        if !ctx.want(&case) { continue; }
+        let mk = |envs: Vec<Envelope<Id>>| match kind {
+            "dup" => Network::new_unordered_duplicating(envs),
+            "nondup" => Network::new_unordered_nonduplicating(envs),
+            _ => Network::new_ordered(envs),
+        };
+        let e = |s: usize, d: usize, m: usize| Envelope { src: Id::from(s), dst: Id::from(d), msg: Id::from(m) };
+        // values [2,0,1] sort to [0,1,2]: old 0 -> 2, old 1 -> 0, old 2 -> 1
+        let plan = RewritePlan::<Id, _>::from_values_to_sort(&vec![2u8, 0, 1]);
+        let p = |i: usize| [2usize, 0, 1][i];
+        let mut net = mk(vec![e(0, 1, 2), e(2, 1, 0), e(1, 0, 0)]);
+        stateright::verif_facade::network_on_deliver(&mut net, e(2, 1, 0));
+        let mut want = mk(vec![e(p(0), p(1), p(2)), e(p(2), p(1), p(0)), e(p(1), p(0), p(0))]);
+        stateright::verif_facade::network_on_deliver(&mut want, e(p(2), p(1), p(0)));
+        let got = net.rewrite(&plan);
+        ctx.check(&case, "network-rewrite-not-the-permuted-network", &["RW.rewrite.ensures.unordered-duplicating", "RW.rewrite.ensures.unordered-non-duplicating", "RW.rewrite.ensures.ordered"], got == want,
+            format!("{:?}", got), format!("{:?}", want));
     }
 }
